@@ -97,15 +97,15 @@ type liveValue struct {
 	fullOpt       *obs.Options
 	exempt        [][2]int // absolute [start,end) ranges in its buffer
 	exemptTouched bool
-	id    int
-	ad    *adapters.Adapter
-	val   any
-	base  string
-	buf   int
-	off   int
-	frame *refmodel.Frame
-	opt   *obs.Options
-	dead  bool
+	id            int
+	ad            *adapters.Adapter
+	val           any
+	base          string
+	buf           int
+	off           int
+	frame         *refmodel.Frame
+	opt           *obs.Options
+	dead          bool
 }
 
 func scribbleBytes(b []byte, mode int, seed uint64) {
